@@ -386,10 +386,11 @@ def run(ctx):
     # ---------------------------------------------------------------- (c) pretty printer
     pretty_cases = corr_pretty(ctx, qf, drv) if drv else {}
     frag_cases = corr_frag(ctx, qf, drv) if drv else {}
+    frag2_cases = corr_frag2(ctx, qf, drv) if drv else {}
     timings["corr_escape_pretty_s"] = round(time.time() - t2, 1)
 
-    corr_total = sum(c.get("cases", 0) for c in (norm_cases, esc_cases, pretty_cases, frag_cases))
-    corr_bad = sum(c.get("disagreements", 0) for c in (norm_cases, esc_cases, pretty_cases, frag_cases))
+    corr_total = sum(c.get("cases", 0) for c in (norm_cases, esc_cases, pretty_cases, frag_cases, frag2_cases))
+    corr_bad = sum(c.get("disagreements", 0) for c in (norm_cases, esc_cases, pretty_cases, frag_cases, frag2_cases))
     samples = [s for s, o, _ in gen[:400] if len(s) < 200][:4]
     ctx.cov.update({
         "evaluations": parsed * 5 + corr_total,
@@ -410,7 +411,7 @@ def run(ctx):
         "syntactic_forms_histogram": dict(sorted(form_hist.items())),
         "e2e_failures_unexplained": len(failures), "e2e_failures_known": known_hits,
         "comment_scanner_vs_generator_mismatches": scanner_mismatch, "timings": timings,
-        "correspondence_normalize": norm_cases, "correspondence_escape": esc_cases, "correspondence_pretty": pretty_cases, "correspondence_fragment": frag_cases,
+        "correspondence_normalize": norm_cases, "correspondence_escape": esc_cases, "correspondence_pretty": pretty_cases, "correspondence_fragment": frag_cases, "correspondence_fragment_with_blocks": frag2_cases,
         "modelled_functions_compared_with_real_code": {
             "Simplify.normalize_blocks compiler_options  ~ simplify::normalize_blocks(keep=false, lift, no group)": norm_cases.get("cases", 0),
             "Simplify.normalize_blocks (formatter_options (keep_by_span ..)) ~ simplify::normalize_blocks(keep by span offset, no lift, group)": norm_cases.get("cases", 0),
@@ -421,6 +422,8 @@ def run(ctx):
             "FormatFrag.flat_width ~ pretty::flat_width": pretty_cases.get("flat_width_calls_compared", 0),
             "FormatFrag.format_frag (term_doc, chain_doc, bracketed, break_if_wider_than, program_doc) ~ format_program on fragment ASTs": frag_cases.get("format_cases", 0),
             "FormatFrag.parse_frag ~ parser::parse on printed and perturbed fragment texts": frag_cases.get("format_cases", 0) + frag_cases.get("parse_cases_accepted_by_model", 0),
+            "FormatFrag2.format_frag2 (g_normalize, block_doc, branch_doc, sequence_doc, is_tall_step, wrap_breaking_body, leading_bar, collapse_blanks) ~ format_program on fragment ASTs with blocks": frag2_cases.get("format_cases", 0),
+            "FormatFrag2.parse_frag2 (block, expression, branch, sequence, seq_sep) ~ parser::parse": frag2_cases.get("format_cases", 0) + frag2_cases.get("parse_cases_accepted_by_model", 0),
         },
         "traces_validated_against_impl": corr_total - corr_bad,
         "disagreements_checked": corr_bad + len(failures),
@@ -747,6 +750,87 @@ def corr_frag(ctx, qf, drv):
             model_only_rejects += 1     # the model parser is allowed to be more conservative (it answers None outside the fragment)
     return {"cases": len(cases) + len(pcases), "disagreements": bad + pbad, "format_cases": len(cases), "outputs_with_broken_layout": multi_line,
             "parse_cases": len(pcases), "parse_cases_accepted_by_model": accepted, "parse_cases_only_real_accepts": model_only_rejects}
+
+
+# ------------------------------------------------------------------------------------------ fragment with blocks (FormatFrag2.v)
+def gen_gterm(rng, depth, budget):
+    budget[0] -= 1
+    if depth > 0 and budget[0] > 0 and rng.random() < 0.3:
+        branches = []
+        for _ in range(rng.choice([1, 1, 2, 2, 3])):
+            cond = gen_gseq(rng, depth - 1, budget, rng.choice([1, 1, 1, 2]))
+            k = gen_gseq(rng, depth - 1, budget, rng.choice([1, 1, 2, 3])) if rng.random() < 0.45 else "-"
+            branches.append("(br %s %s)" % (cond, k))
+        return "(b %s)" % " ".join(branches)
+    k = rng.random()
+    if depth <= 0 or budget[0] <= 0 or k < 0.35:
+        j = rng.random()
+        if j < 0.3:
+            return "(i %d)" % rng.choice([0, 1, -1, 7, 42, -300, 10 ** 12, rng.randint(-99999, 99999)])
+        if j < 0.7:
+            return "(id %s)" % cps(gen_fname(rng))
+        if j < 0.9:
+            return "(s %s)" % cps("".join(rng.choice(["a", "b", " ", "\"", "{", "}", "|", "=>", ",", "é"]) for _ in range(rng.choice([0, 1, 2, 5, 12]))))
+        return "(t (n %s))" % cps(gen_fname(rng, True)) if rng.random() < 0.6 else "(t -)"
+    name = "(n %s)" % cps(gen_fname(rng, True)) if rng.random() < 0.4 else "-"
+    fields = []
+    for _ in range(rng.choice([1, 1, 2, 3, 4])):
+        label = "(l %s)" % cps(gen_fname(rng)) if rng.random() < 0.35 else "-"
+        fields.append("(f %s %s)" % (label, gen_gchain_terms(rng, depth - 1, budget)))
+    return "(t %s %s)" % (name, " ".join(fields))
+
+
+def gen_gchain_terms(rng, depth, budget):
+    return " ".join(gen_gterm(rng, depth, budget) for _ in range(rng.choice([1, 1, 1, 2, 2, 3, 4])))
+
+
+def gen_gseq(rng, depth, budget, n, head="q"):
+    return "(%s %s)" % (head, " ".join("(c %s)" % gen_gchain_terms(rng, depth, budget) for _ in range(n)))
+
+
+def corr_frag2(ctx, qf, drv):
+    """FormatFrag2: model format (normalize_blocks + Doc construction with blocks, branches, guards, multi-step sequences,
+    wrap_breaking_body, tall steps, collapse_blanks) vs real format_program; model parser vs real parser."""
+    rng = ctx.rng
+    cases = []
+    for _ in range(ctx.n(2500, 15000)):
+        budget = [rng.choice([4, 10, 25, 50])]
+        cases.append("(frag2fmt %s)" % gen_gseq(rng, rng.choice([1, 2, 3, 4]), budget, rng.choice([1, 1, 2, 3]), head="seq"))
+    rc, real = ctx.run_sharded(qf, cases, args=["frag2"])
+    rc, model = ctx.run_sharded(drv, cases, args=["frag2"])
+    if model and model[0].startswith("(unsupported-mode"):
+        return {"cases": 0, "disagreements": 0, "note": "fragment-2 model not in the driver"}
+    bad, texts, with_block, wrapped, blank_lines = 0, [], 0, 0, 0
+    for c, r, m in zip(cases, real, model):
+        mo = re.match(r"\(frag2 \(out ([0-9 ]*)\)", r)
+        if mo:
+            text = uncps(mo.group(1))
+            texts.append(text)
+            with_block += "{" in text
+            blank_lines += "\n\n" in text
+        if r != m:
+            bad += 1
+            if bad <= 3:
+                kind = "impl-violation" if ("(panic" in r or "(back (err)" in r) else "correspondence-broken"
+                ctx.violation({"kind": kind, "correspondence": "FormatFrag2.v format_frag2 / parse_frag2 vs format_program / parse", "case": c[:2000],
+                               "impl": r[:2000], "model": m[:2000]}, no_input=(kind != "impl-violation"))
+    pcases = ["(frag2parse %s)" % cps(perturb(rng, t)) for t in texts[:ctx.n(2500, 15000)]]
+    rc, preal = ctx.run_sharded(qf, pcases, args=["frag2"])
+    rc, pmodel = ctx.run_sharded(drv, pcases, args=["frag2"])
+    pbad, accepted, model_only_rejects = 0, 0, 0
+    for c, r, m in zip(pcases, preal, pmodel):
+        if "(back (ok" in m:
+            accepted += 1
+            if r != m:
+                pbad += 1
+                if pbad <= 3:
+                    ctx.violation({"kind": "correspondence-broken", "correspondence": "FormatFrag2.v parse_frag2 vs parser.rs parse (perturbed text)",
+                                   "case": c[:2000], "impl": r[:2000], "model": m[:2000]}, no_input=True)
+        elif "(back (ok" in r:
+            model_only_rejects += 1
+    return {"cases": len(cases) + len(pcases), "disagreements": bad + pbad, "format_cases": len(cases), "outputs_with_a_block": with_block,
+            "outputs_with_blank_line_between_tall_steps": blank_lines, "parse_cases": len(pcases), "parse_cases_accepted_by_model": accepted,
+            "parse_cases_only_real_accepts": model_only_rejects}
 
 # ------------------------------------------------------------------------------------------ replay
 def replay(ctx, e2e, drv, qf):
